@@ -2,6 +2,7 @@ import ClvmModel.Proto.Varint
 import ClvmModel.Proto.Alloc
 import ClvmModel.Proto.Classic
 import ClvmModel.Proto.Run
+import ClvmModel.Interp.CryptoOps
 import ClvmModel.Proto.Backref
 import ClvmModel.Proto.TreeHash
 import ClvmModel.Proto.Crypto
@@ -35,8 +36,8 @@ def handleLine (line : String) : String :=
       | "PATH" => handlePath args
       | "LEN" => handleLen args
       | "PFX" => handlePfx args
-      | "RUN" => handleRunWith {} noExtra args
-      | "OP" => handleOpWith {} noExtra args
+      | "RUN" => handleRunWith {} Clvm.Interp.cryptoExtra args
+      | "OP" => handleOpWith {} Clvm.Interp.cryptoExtra args
       | "UNK" => handleUnknown args
       | "PYGLUE" | "PYSER" | "PYPFX" | "PYDE" | "PYINT" | "PYCURRY" | "PYUNCURRY" => handlePy kind args
       | _ => none
